@@ -1,11 +1,11 @@
 #!/bin/sh
-# seed_round2.sh <cxx> [extra props] - verifies /tmp/mut2/<cxx>/_out/change{1,2} as <CXX>-mut{3,4} in scratch mode
+# seed_round2.sh <cxx> [extra props] - verifies $MUTDIR/<cxx>/_out/change{1,2} (default /tmp/mut2) as <CXX>-mut{3,4} (OFFSET=2; round 3: MUTDIR=/tmp/mut3 OFFSET=4) in scratch mode
 cd "$(dirname "$0")/.."
 c=$1; C=$(echo $c | tr c C); shift
 extra=""; [ -n "$1" ] && extra="--props $1"
 for i in 1 2; do
-  id=$C-mut$((i+2))
-  timeout 5000 python3 tools/seed_verify.py /tmp/mut2/$c/_out/change$i $id --scratch $extra > build/seed_$id.out 2>&1
+  id=$C-mut$((i+${OFFSET:-2}))
+  timeout 5000 python3 tools/seed_verify.py ${MUTDIR:-/tmp/mut2}/$c/_out/change$i $id --scratch $extra > build/seed_$id.out 2>&1
   python3 - "$id" <<'PY'
 import json,sys
 sid=sys.argv[1]
